@@ -21,6 +21,7 @@ import (
 	"strconv"
 	"strings"
 	"sync"
+	"sync/atomic"
 	"time"
 
 	"github.com/gogo/protobuf/proto"
@@ -145,6 +146,9 @@ type node struct {
 	synced    map[string]int                        // per follower name: streams whose history sync has completed (bindStream done)
 	ended     map[string]int                        // per follower name: streams whose server-side handler has returned
 
+	storCalls int64 // calls of GetStorage (see there)
+	alive     int64 // keep-alive messages (no regions) RunServer's 10 s ticker has sent since the last op
+
 	// follower
 	base      *failKV // plain followers: the default kv the regions are saved to (writes can be made to fail)
 	connected bool
@@ -156,8 +160,18 @@ func (n *node) ClusterID() uint64            { return 7 }
 func (n *node) GetMemberInfo() *pdpb.Member {
 	return &pdpb.Member{Name: n.name, MemberId: 1, ClientUrls: []string{"http://127.0.0.1:1"}}
 }
-func (n *node) GetLeader() *pdpb.Member             { return &pdpb.Member{Name: "leader"} }
-func (n *node) GetStorage() *core.Storage           { return n.st }
+func (n *node) GetLeader() *pdpb.Member { return &pdpb.Member{Name: "leader"} }
+
+// GetStorage is what the follower's receive loop asks for once per region it applies (right after
+// CheckAndPutRegion, right before SaveRegion) and once per StartSyncWithLeader (LoadRegionsOnce): counting the calls
+// tells how many regions a follower has taken in, which its next index cannot (a reset can land on the same value)
+func (n *node) GetStorage() *core.Storage {
+	atomic.AddInt64(&n.storCalls, 1)
+	return n.st
+}
+
+func (n *node) applied() int64 { return atomic.LoadInt64(&n.storCalls) }
+
 func (n *node) Name() string                        { return n.name }
 func (n *node) GetTLSConfig() *grpcutil.TLSConfig   { return &grpcutil.TLSConfig{} }
 func (n *node) GetBasicCluster() *core.BasicCluster { return n.bc }
@@ -275,13 +289,32 @@ func (x *recStream) Send(m *pdpb.SyncRegionResponse) error {
 	if err := proto.Unmarshal(b, c); err != nil {
 		panic(err)
 	}
-	// only what was really handed to gRPC counts as sent (a broadcast to a dead stream fails here)
+	// Only what was really handed to gRPC counts as sent (a broadcast to a dead stream fails here).  It is noted
+	// BEFORE SendMsg - the follower may have applied the message before SendMsg returns - and taken back on failure.
+	keepAlive := len(c.GetRegions()) == 0 // RunServer's ticker: a trace line of its own (see world.keepalives)
+	x.l.mu.Lock()
+	if keepAlive {
+		atomic.AddInt64(&x.l.alive, 1)
+	} else {
+		x.l.sent[x.name] = append(x.l.sent[x.name], c)
+	}
+	x.l.mu.Unlock()
 	if err := x.ServerStream.SendMsg(m); err != nil {
+		x.l.mu.Lock()
+		if keepAlive {
+			atomic.AddInt64(&x.l.alive, -1)
+		} else {
+			ms := x.l.sent[x.name]
+			for i := len(ms) - 1; i >= 0; i-- {
+				if ms[i] == c {
+					x.l.sent[x.name] = append(ms[:i:i], ms[i+1:]...)
+					break
+				}
+			}
+		}
+		x.l.mu.Unlock()
 		return err
 	}
-	x.l.mu.Lock()
-	x.l.sent[x.name] = append(x.l.sent[x.name], c)
-	x.l.mu.Unlock()
 	return nil
 }
 
@@ -563,52 +596,9 @@ func expectedNext(cur uint64, ms []*pdpb.SyncRegionResponse, fails func(uint64) 
 	return cur
 }
 
-// lastApplied: the last region of the last message has been processed by the follower (the index alone cannot
-// tell when that region's save fails): it is in the follower's history, or - if its save fails - in its cache
-func lastApplied(fo *node, ms []*pdpb.SyncRegionResponse) bool {
-	for k := len(ms) - 1; k >= 0; k-- {
-		m := ms[k]
-		n := len(m.GetRegions())
-		if n == 0 {
-			continue
-		}
-		j := n - 1
-		var leader *metapb.Peer
-		if len(m.GetRegionLeaders()) > j && m.GetRegionLeaders()[j].GetId() != 0 {
-			leader = m.GetRegionLeaders()[j]
-		}
-		r := core.NewRegionInfo(m.GetRegions()[j], leader)
-		if len(m.GetRegionStats()) == n {
-			st := m.GetRegionStats()[j]
-			r = core.NewRegionInfo(m.GetRegions()[j], leader, core.SetWrittenBytes(st.BytesWritten),
-				core.SetWrittenKeys(st.KeysWritten), core.SetReadBytes(st.BytesRead), core.SetReadKeys(st.KeysRead))
-		}
-		want := fmtRegion(r)
-		h := fo.sy.VerifHistory()
-		if cachedAs(fo, r.GetID(), want) {
-			return true
-		}
-		next := h.GetNextIndex()
-		return next > 0 && recordedAs(h, next-1, want)
-	}
-	return true
-}
-
-// cachedAs: the follower's cache holds the region as `want`
-func cachedAs(fo *node, id uint64, want string) bool {
-	r := fo.bc.GetRegion(id)
-	return r != nil && fmtRegion(r) == want
-}
-
 // disconnect stops the follower's receive loop.  StopSyncWithLeader cancels the stream at once but returns
 // only after the loop's one-second sleep, so it runs in the background; the op is complete when the leader's
 // handler of this stream has returned (nothing can reach the follower any more).
-// recordedAs: the follower's history holds, under that index, a region that reads like `want` (the follower's
-// index alone does not tell whether a message has been applied when a reset makes it land on the same value)
-func recordedAs(h *syncer.VerifHistoryBuffer, index uint64, want string) bool {
-	r := h.VerifGet(index)
-	return r != nil && fmtRegion(r) == want
-}
 
 func (f *node) disconnect() {
 	f.connected = false
@@ -763,8 +753,10 @@ func (w *world) exec(op string) string {
 			before := h.GetNextIndex()
 			// will the write of this region fail on a follower?  (asked before the broadcast consumes a one-shot)
 			willFail := make([]bool, len(w.followers))
+			taken := make([]int64, len(w.followers))
 			for i, fo := range w.followers {
 				willFail[i] = fo.base.failing()(r.GetID())
+				taken[i] = fo.applied()
 			}
 			l.notifier <- r
 			if !waitFor(waitLimit, func() bool { return h.GetNextIndex() == before+1 }) {
@@ -782,14 +774,14 @@ func (w *world) exec(op string) string {
 					continue
 				}
 				fh := fo.sy.VerifHistory()
-				want := fmtRegion(r)
-				done := func() bool { return fh.GetNextIndex() == before+1 && recordedAs(fh, before, want) }
+				// complete = the follower has taken in one more region and its index is where that leaves it: the
+				// leader's next index, or the message's start index if the follower's write of this region fails
+				wantIdx, wantTaken := before+1, taken[i]+1
 				if willFail[i] {
-					// the follower's write of this region fails: it is applied in memory, not recorded
-					id := r.GetID()
-					done = func() bool { return fh.GetNextIndex() == before && cachedAs(fo, id, want) }
+					wantIdx = before
 				}
-				if !waitFor(lagLimit, done) {
+				o := fo
+				if !waitFor(lagLimit, func() bool { return o.applied() >= wantTaken && fh.GetNextIndex() == wantIdx }) {
 					ms, ns := l.peekSent(fo.name)
 					lagging += fmt.Sprintf(" lagging-%d=%d bound-%d=%v streams-%d=%d sent-%d=%d", i, fh.GetNextIndex(),
 						i, l.sy.VerifHasStream(fo.name), i, ns, i, len(ms))
@@ -800,6 +792,29 @@ func (w *world) exec(op string) string {
 			return fmt.Sprintf("ok accepted=%d next=%d%s", accepted, h.GetNextIndex(), lagging)
 		}
 		return fmt.Sprintf("ok next=%d%s", h.GetNextIndex(), lagging)
+	case f[0] == "keepalive" && len(f) == 1:
+		// replay of a keep-alive: the same message RunServer's ticker sends, on every live follower's stream
+		l := w.leader
+		if l == nil {
+			return bad
+		}
+		alive := &pdpb.SyncRegionResponse{Header: &pdpb.ResponseHeader{ClusterId: l.ClusterID()},
+			StartIndex: l.sy.VerifHistory().GetNextIndex()}
+		for _, fo := range w.followers {
+			if !fo.connected {
+				continue
+			}
+			l.mu.Lock()
+			x := l.cur[fo.name]
+			l.mu.Unlock()
+			if x != nil {
+				x.sendMu.Lock()
+				x.ServerStream.SendMsg(alive)
+				x.sendMu.Unlock()
+			}
+		}
+		w.awaitAlive()
+		return "ok"
 	case f[0] == "lrestart" && len(f) == 1:
 		// the leader process restarts (same regions, as reloaded from its storage): the history index comes back
 		// from the kv, every stream is gone; the followers have to connect again
@@ -851,8 +866,11 @@ func (w *world) exec(op string) string {
 		before := h.GetNextIndex()
 		l.takeSent(fo.name)
 		var acc strings.Builder
-		lastAccepted := ""
 		var rest []*core.RegionInfo
+		taken := make([]int64, len(w.followers))
+		for i, o := range w.followers {
+			taken[i] = o.applied()
+		}
 		first := true
 		for _, spec := range f[2:] {
 			r := parseRegion(spec)
@@ -862,7 +880,6 @@ func (w *world) exec(op string) string {
 				continue
 			}
 			acc.WriteByte('1')
-			lastAccepted = fmtRegion(r)
 			if first {
 				first = false
 				x.arm()
@@ -906,7 +923,8 @@ func (w *world) exec(op string) string {
 				continue
 			}
 			oh := o.sy.VerifHistory()
-			if !waitFor(lagLimit, func() bool { return oh.GetNextIndex() == before+n && recordedAs(oh, before+n-1, lastAccepted) }) {
+			oo, wantTaken := o, taken[i]+int64(n)
+			if !waitFor(lagLimit, func() bool { return oo.applied() >= wantTaken && oh.GetNextIndex() == before+n }) {
 				tail = fmt.Sprintf(" timeout-follower-%d", i)
 			}
 		}
@@ -971,6 +989,7 @@ func (w *world) exec(op string) string {
 		before := l.syncedCount(fo.name)
 		_, streams0 := l.peekSent(fo.name)
 		failsBefore := fo.base.snapshot()
+		taken0 := fo.applied()
 		fo.sy.StartSyncWithLeader(l.addr)
 		fo.connected = true
 		if !waitFor(waitLimit, func() bool { return l.syncedCount(fo.name) > before && l.sy.VerifHasStream(fo.name) }) {
@@ -978,16 +997,18 @@ func (w *world) exec(op string) string {
 		}
 		tail := ""
 		if !waitFor(waitLimit, func() bool {
+			// one GetStorage call for LoadRegionsOnce, one per region received
 			ms, _ := l.peekSent(fo.name)
-			return fh.GetNextIndex() == expectedNext(start, ms, failsBefore())
+			n := int64(1)
+			for _, m := range ms {
+				n += int64(len(m.GetRegions()))
+			}
+			return fo.applied() >= taken0+n && fh.GetNextIndex() == expectedNext(start, ms, failsBefore())
 		}) {
 			_, streams1 := l.peekSent(fo.name)
 			tail = fmt.Sprintf(" timeout-apply streams=%d", streams1-streams0)
 		}
 		ms := l.takeSent(fo.name)
-		if tail == "" && !waitFor(lagLimit, func() bool { return lastApplied(fo, ms) }) {
-			tail = " last-region-not-applied"
-		}
 		return fmt.Sprintf("req=%d msgs=%s fnext=%d%s", start, fmtMsgs(ms), fh.GetNextIndex(), tail)
 	case f[0] == "raw" && len(f) == 6:
 		// a hand-made message on the follower's stream (what an older or a faulty leader could send): the
@@ -1023,11 +1044,12 @@ func (w *world) exec(op string) string {
 		if fh.GetNextIndex() == want {
 			return bad // completion could not be observed through the follower's index
 		}
+		wantTaken := fo.applied() + int64(len(msg.Regions))
 		if err := x.ServerStream.SendMsg(msg); err != nil {
 			return "send-error"
 		}
 		tail := ""
-		if !waitFor(waitLimit, func() bool { return fh.GetNextIndex() == want }) {
+		if !waitFor(waitLimit, func() bool { return fo.applied() >= wantTaken && fh.GetNextIndex() == want }) {
 			tail = " timeout-apply"
 		}
 		return fmt.Sprintf("ok fnext=%d%s", fh.GetNextIndex(), tail)
@@ -1069,7 +1091,33 @@ func (w *world) exec(op string) string {
 	return bad
 }
 
+// keepalives: RunServer sends `{StartIndex: next index}` every 10 s; a follower whose index differs adopts it.  In a
+// slow run that can happen between two ops, so it is written into the trace as a line `keepalive` (the model does the
+// same to every connected follower) once its effect is complete.
+func (w *world) keepalives(t *trace.W) {
+	l := w.leader
+	if l == nil || atomic.SwapInt64(&l.alive, 0) <= 0 {
+		return
+	}
+	w.awaitAlive()
+	t.Line("keepalive", "ok")
+}
+
+func (w *world) awaitAlive() {
+	l := w.leader
+	next := l.sy.VerifHistory().GetNextIndex()
+	for _, fo := range w.followers {
+		if fo.connected {
+			fh := fo.sy.VerifHistory()
+			waitFor(lagLimit, func() bool { return fh.GetNextIndex() == next })
+		}
+	}
+}
+
 func (w *world) run(t *trace.W, op string) {
+	if op != "keepalive" {
+		w.keepalives(t)
+	}
 	t.Line(op, w.exec(op))
 }
 
